@@ -332,7 +332,7 @@ def check_C16(fx, eng, rep, tier):
                        'skips only the sentinel and expired slots and appends cur+1 and cur unconditionally, so without guards the list is {cur+1, cur}.')
     rep.rule_text = 'C16.INIT / C16.STEP / C16.MIN / C16.SORT + C04.SCAN / C04.ENTER / C04.PUBLISH'
     rep.trusted = ['clang 14 AST/CFG', 'single coordinator', 'std::sort/unique/erase semantics']
-    n = _take(rep, sink, ['C16.', 'C04.SCAN', 'C04.ENTER', 'C04.PUBLISH', 'C04.GUARD', 'C20.ALLOC', 'C17.OWN'])
+    n = _take(rep, sink, ['C16.', 'C04.SCAN', 'C04.ENTER', 'C04.PUBLISH', 'C04.GUARD', 'C20.ALLOC', 'C17.OWN', 'C17.PUB'])
     _thread_fns(rep, fx, EPOCH_TUS)
     rep.floor('C16 obligations', n, 15)
 
@@ -368,7 +368,7 @@ def check_C20(fx, eng, rep, tier):
     rep.rule_text = 'C20.ALLOC / C20.WALK / C20.UAF + C17.FREE / C17.OWN (node lookup) + C04.SCAN / C04.PUBLISH / C16.SORT / C16.MIN'
     rep.trusted = ['clang 14 AST/CFG', 'std::sort/unique/erase semantics']
     rep.assumptions = ['the retention bound is not decided']
-    n = _take(rep, sink, ['C20.', 'C17.FREE', 'C17.OWN', 'C04.SCAN', 'C04.PUBLISH', 'C16.SORT', 'C16.MIN', 'C04.GUARD', 'C04.ENTER'])
+    n = _take(rep, sink, ['C20.', 'C17.FREE', 'C17.OWN', 'C04.SCAN', 'C04.PUBLISH', 'C16.SORT', 'C16.MIN', 'C04.GUARD', 'C04.ENTER', 'C04.BIND'])
     _thread_fns(rep, fx, EPOCH_TUS)
     rep.floor('C20 obligations', n, 15)
 
